@@ -197,7 +197,20 @@ func ghostSort(text string) (Sort, error) {
 		}
 		return ArrSort(k, v), nil
 	}
+	if text != "" && (text[0] == '*' || strings.Contains(text, ".") || (text[0] >= 'A' && text[0] <= 'Z')) {
+		// a Go interface / pointer type: values are references
+		return SV, nil
+	}
 	return "", fmt.Errorf("unknown ghost sort %q", text)
+}
+
+// ghostElemText returns the element type text of a ghost map type ("" if none).
+func ghostElemText(text string) string {
+	text = strings.TrimSpace(text)
+	if strings.HasPrefix(text, "map[") {
+		return strings.TrimSpace(text[matchBracket(text, 3)+1:])
+	}
+	return ""
 }
 
 // lookupObject resolves "Name" or "pkg.Name" against the contract's package.
@@ -248,6 +261,13 @@ func (e *Env) eval(x Expr) (*Val, error) {
 		}
 		if v.T == nil {
 			return nil, fmt.Errorf("unary %s on composite", n.Op)
+		}
+		if n.Op == "*" {
+			p, ok := v.Typ.Underlying().(*types.Pointer)
+			if v.Typ == nil || !ok {
+				return nil, fmt.Errorf("dereference of non-pointer %s", describe(v))
+			}
+			return c.loadObj(e.st, v.T, p.Elem()), nil
 		}
 		if n.Op == "!" {
 			if v.T.Sort != SBool {
@@ -379,7 +399,8 @@ func (e *Env) evalIdent(name string) (*Val, error) {
 		if err != nil {
 			return nil, err
 		}
-		return &Val{T: c.get(e.st, "G:"+name, s)}, nil
+		gp, _ := g.Pkg.(*types.Package)
+		return &Val{T: c.get(e.st, "G:"+name, s), GT: g.Type, GPkg: gp}, nil
 	}
 	if obj := e.lookupObject(name); obj != nil {
 		return e.objectVal(obj)
@@ -777,7 +798,24 @@ func (e *Env) evalIndex(n *EIndex) (*Val, error) {
 	}
 	if x.T != nil {
 		if _, _, ok := arrParts(x.T.Sort); ok {
-			return &Val{T: tSelect(x.T, i.T)}, nil
+			out := &Val{T: tSelect(x.T, i.T)}
+			if et := ghostElemText(x.GT); et != "" {
+				if strings.HasPrefix(et, "map[") {
+					out.GT = et
+					out.GPkg = x.GPkg
+				} else {
+					re := e
+					if x.GPkg != nil {
+						cp := *e
+						cp.pkg = x.GPkg
+						re = &cp
+					}
+					if t, _, err := re.resolveType(et); err == nil {
+						out.Typ = t
+					}
+				}
+			}
+			return out, nil
 		}
 	}
 	return nil, fmt.Errorf("cannot index %s", describe(x))
@@ -883,6 +921,32 @@ func (e *Env) evalCall(n *ECall) (*Val, error) {
 				return nil, err
 			}
 			return &Val{T: a.T, Typ: tt}, nil
+		case "upd":
+			a, err := e.evalArgs(n.Args)
+			if err != nil {
+				return nil, err
+			}
+			if len(a) != 3 || a[0].T == nil {
+				return nil, fmt.Errorf("upd(map, key, value)")
+			}
+			if _, _, ok := arrParts(a[0].T.Sort); !ok {
+				return nil, fmt.Errorf("upd: first argument is not a ghost map")
+			}
+			return &Val{T: tStore(a[0].T, a[1].T, a[2].T)}, nil
+		case "implements":
+			if len(n.Args) != 2 {
+				return nil, fmt.Errorf("implements(x, Iface)")
+			}
+			a, err := e.eval(n.Args[0])
+			if err != nil {
+				return nil, err
+			}
+			tt, _, err := e.resolveType(exprText(n.Args[1]))
+			if err != nil {
+				return nil, err
+			}
+			c.sc.declareFun("implements", []Sort{SInt, SInt}, SBool)
+			return scalar(tAnd(tNot(tEq(a.T, tNull)), tApp(SBool, "implements", tApp(SInt, "dyntype", a.T), c.typeID(tt))), boolT), nil
 		case "dom":
 			a, err := e.evalArgs(n.Args)
 			if err != nil {
@@ -917,6 +981,7 @@ func (e *Env) evalCall(n *ECall) (*Val, error) {
 				if err != nil {
 					return nil, err
 				}
+				a = c.packVariadic(f.Type().(*types.Signature), a)
 				return c.pureFuncApp(f, nil, a)
 			}
 		}
@@ -964,6 +1029,14 @@ func (e *Env) evalCall(n *ECall) (*Val, error) {
 				}
 			}
 			return nil, fmt.Errorf("no method %s on %s", sel.Name, recv.Typ)
+		}
+		if !types.IsInterface(m.Type().(*types.Signature).Recv().Type()) {
+			// concrete method: must be a function declared pure
+			if bc := c.V.contractFor(m.FullName()); bc != nil && bc.C.Pure {
+				a = c.packVariadic(m.Type().(*types.Signature), a)
+				return c.pureFuncApp(m, nil, append([]*Val{recv}, a...))
+			}
+			return nil, fmt.Errorf("method %s is not declared pure", m.FullName())
 		}
 		return c.pureMethodApp(e.st, m, recv, a)
 	}
